@@ -29,12 +29,20 @@ def _classify(stmts):
     return out
 
 
+FINDING_SHAPES = {
+    "block-scope": ["{ int32_t a = 1; { int32_t a = 2; } RdV = a; }", "{ int32_t a = 1; if (RsV) { int64_t a = 2; RxxV = a; } ReV = a; }",
+                    "{ int32_t a = RsV; for (i = 0; i < 2; i++) { int32_t a = i; RxV += a; } RdV = a; }"],
+}
+
+
 def run_check(ctx):
     ctx.rule = ("Hypothesis-generated statement sequences (nesting <= 3) x generated machine states; non-trivial = "
                 "distinct program containing an if or a for loop that was judged on >= 2 states")
     ctx.assumptions = ["expressions restricted to the safe core (32/64 bit operands, comparisons only as conditions)"
                        " so that a failure is about statements, not about a listed expression-level finding",
                        "machine model: DESIGN.md section 4; C-undefined executions discarded"]
+    progcheck.replay_known(ctx)
+    progcheck.judge_shapes(ctx, "C05", FINDING_SHAPES)
     n, ns = (16000, 8) if ctx.tier == "thorough" else (640, 6)
     progcheck.run_gen(ctx, "C05", FEATURES, n, ns, depth=2, nest=3, lo=2, hi=5,
                       nontrivial=_nontrivial, classify=_classify, native_all=(ctx.tier == "thorough"))
